@@ -61,6 +61,23 @@ Definition module_machine : machine mcfg unit unit (bool * bool) unit :=
             (fun _ _ => tt) (fun _ s => s) (fun _ _ => tt).
 
 (* ------------------------------------------------------------------------------------------------
+   Objects without state: what they compute at a step is a function of the configuration, the step number and the
+   input of the step only (fixed restraints are of this kind; so is histogramRestraint, whose state block holds
+   nothing but its name and step). *)
+Definition stateless_machine {C I Ou : Type} (f : C -> Z -> I -> Ou) : machine C unit I Ou unit :=
+  mkMachine (fun _ => tt) (fun c _ it rel i => (tt, f c it i)) (fun _ _ => tt) (fun _ s => s) (fun _ _ => tt).
+
+Section HistogramRestraintObject.
+  Context {T : Type} (O : NumOps T).
+  (* colvarbias_restraint_histogram (C06 model of update()): energy and forces on the entries of a vector variable *)
+  Record hrcfg := mkHRCfg { hr_k : T; hr_pi : T; hr_sigma : T; hr_lower : T; hr_width : T; hr_ref : list T }.
+  Definition histrestraint_machine : machine hrcfg unit (list T) (T * list T) unit :=
+    stateless_machine (fun c _ xs =>
+      (hist_energy O (hr_k c) (hr_pi c) (hr_sigma c) (hr_lower c) (hr_width c) (hr_ref c) xs,
+       hist_forces O (hr_k c) (hr_pi c) (hr_sigma c) (hr_lower c) (hr_width c) (hr_ref c) xs)).
+End HistogramRestraintObject.
+
+(* ------------------------------------------------------------------------------------------------
    Histogram on scalar variables (src/colvarbias_histogram.cpp, update(): bin of the current values;
    `if (can_accumulate_data()) if (grid->index_ok(bin)) grid->acc_value(bin, 1.0)`; write_state_data:
    the whole grid; read_state_data: the whole grid).  The grid is a total function of the index vector
